@@ -85,6 +85,19 @@ class PauliZGate(GeneralGate):
         """Return the parameters for this gate to implement `utry`"""
         return list(-2 * pauliz_expansion(unitary_log_no_i(utry.numpy)))
 
+    def optimize(self, env_matrix: npt.NDArray[np.complex128]) -> list[float]:
+        """
+        Return the optimal parameters with respect to an environment matrix.
+
+        See :class:`LocallyOptimizableUnitary` for more info.
+        """
+        self.check_env_matrix(env_matrix)
+        # This gate only produces diagonal unitaries, and the trace of the
+        # product only involves the environment's diagonal: the best phase
+        # for each entry cancels the phase of the entry it multiplies.
+        phases = np.exp(-1j * np.angle(np.diag(env_matrix)))
+        return self.calc_params(UnitaryMatrix(np.diag(phases), self.radixes))
+
     def __eq__(self, o: object) -> bool:
         return isinstance(o, PauliZGate) and self.num_qudits == o.num_qudits
 
